@@ -259,13 +259,23 @@ func (c *svcEndpointDiscoveryClient) SetHook(hook svcEndpointHook) {
 	c.hook = hook
 }
 
+// svcSubOp is a pending subscribe or unsubscribe operation.
+type svcSubOp struct {
+	svcName   string
+	subscribe bool
+}
+
 type svcDiscoveryClient struct {
 	sync.RWMutex
 	scope string
 
 	subscribed map[string]struct{}
-	subCh      chan string
-	unsubCh    chan string
+	// pendingOps holds the operations which are not sent yet in calling order.
+	// NOTE: A subscribe and an unsubscribe of the same service must not be
+	// reordered, so they can't be queued separately.
+	pendingOps []svcSubOp
+	// opsCh is used to wake up the sending loop.
+	opsCh chan struct{}
 
 	newStream svcDiscoveryStreamMaker
 }
@@ -274,8 +284,7 @@ func newSvcDiscoveryClient(scope string, streamMaker svcDiscoveryStreamMaker) *s
 	return &svcDiscoveryClient{
 		scope:      scope,
 		subscribed: make(map[string]struct{}, 16),
-		subCh:      make(chan string, 16),
-		unsubCh:    make(chan string, 16),
+		opsCh:      make(chan struct{}, 1),
 		newStream:  streamMaker,
 	}
 }
@@ -288,10 +297,9 @@ func (c *svcDiscoveryClient) Subscribe(svcName string) {
 		return
 	}
 	c.subscribed[svcName] = struct{}{}
+	c.pendingOps = append(c.pendingOps, svcSubOp{svcName: svcName, subscribe: true})
 	c.Unlock()
-	// NOTE: Must not hold the lock while sending, the channel may be full when
-	// there is no stream, and resubscribe needs the lock to drain it.
-	c.subCh <- svcName
+	c.notifyPendingOps()
 }
 
 func (c *svcDiscoveryClient) Unsubscribe(svcName string) {
@@ -302,9 +310,42 @@ func (c *svcDiscoveryClient) Unsubscribe(svcName string) {
 		return
 	}
 	delete(c.subscribed, svcName)
+	c.pendingOps = append(c.pendingOps, svcSubOp{svcName: svcName, subscribe: false})
 	c.Unlock()
-	// NOTE: Must not hold the lock while sending, see Subscribe.
-	c.unsubCh <- svcName
+	c.notifyPendingOps()
+}
+
+func (c *svcDiscoveryClient) notifyPendingOps() {
+	select {
+	case c.opsCh <- struct{}{}:
+	default:
+	}
+}
+
+// takePendingOps takes all the pending operations away, and merges them
+// into the services to subscribe and to unsubscribe. Only the last operation
+// of a service counts.
+func (c *svcDiscoveryClient) takePendingOps() (subscribed, unsubscribed []string) {
+	c.Lock()
+	ops := c.pendingOps
+	c.pendingOps = nil
+	c.Unlock()
+
+	last := make(map[string]int, len(ops))
+	for i, op := range ops {
+		last[op.svcName] = i
+	}
+	for i, op := range ops {
+		if last[op.svcName] != i {
+			continue
+		}
+		if op.subscribe {
+			subscribed = append(subscribed, op.svcName)
+		} else {
+			unsubscribed = append(unsubscribed, op.svcName)
+		}
+	}
+	return
 }
 
 func (c *svcDiscoveryClient) Run(ctx context.Context) {
@@ -355,16 +396,15 @@ func (c *svcDiscoveryClient) run(ctx context.Context) {
 }
 
 func (c *svcDiscoveryClient) resubscribe(stream svcDiscoveryStream) error {
-	c.RLock()
+	c.Lock()
 	// load all subscribed services.
 	svcNames := make([]string, 0, len(c.subscribed))
 	for svcName := range c.subscribed {
 		svcNames = append(svcNames, svcName)
 	}
-	// clean sub/unsub channel
-	c.cleanSubChLocked()
-	c.cleanUnsubChLocked()
-	c.RUnlock()
+	// clean the pending operations, they're covered by the subscribed services.
+	c.pendingOps = nil
+	c.Unlock()
 
 	// skip if no subscribed services.
 	if len(svcNames) == 0 {
@@ -372,26 +412,6 @@ func (c *svcDiscoveryClient) resubscribe(stream svcDiscoveryStream) error {
 	}
 
 	return stream.Send(svcNames, nil)
-}
-
-func (c *svcDiscoveryClient) cleanSubChLocked() {
-	for {
-		select {
-		case <-c.subCh:
-		default:
-			return
-		}
-	}
-}
-
-func (c *svcDiscoveryClient) cleanUnsubChLocked() {
-	for {
-		select {
-		case <-c.unsubCh:
-		default:
-			return
-		}
-	}
 }
 
 func (c *svcDiscoveryClient) loopRecv(stream svcDiscoveryStream) {
@@ -405,31 +425,17 @@ func (c *svcDiscoveryClient) loopRecv(stream svcDiscoveryStream) {
 
 func (c *svcDiscoveryClient) loopSend(stream svcDiscoveryStream, stop <-chan struct{}) {
 	for {
-		var subscribed, unsubscribed []string
 		select {
-		case svcName := <-c.subCh:
-			subscribed = append(subscribed, svcName)
-		case svcName := <-c.unsubCh:
-			unsubscribed = append(unsubscribed, svcName)
+		case <-c.opsCh:
 		case <-stop:
 			return
 		}
 
 		// batch
-		for {
-			select {
-			case svcName := <-c.subCh:
-				subscribed = append(subscribed, svcName)
-			case svcName := <-c.unsubCh:
-				unsubscribed = append(unsubscribed, svcName)
-			case <-stop:
-				return
-			default:
-				goto SEND
-			}
+		subscribed, unsubscribed := c.takePendingOps()
+		if len(subscribed) == 0 && len(unsubscribed) == 0 {
+			continue
 		}
-
-	SEND:
 		err := stream.Send(subscribed, unsubscribed)
 		if err != nil {
 			logger.Warnf("Send to service %s discovery stream failed: %v", c.scope, err)
